@@ -184,28 +184,119 @@ def crate.quire32.convert.Q32E2.to_posit (self : Rs.Q32E2) : Rs.M Int32 := do
       u_a ← Rs.add_u32 u_a ((u_a &&& 1) ||| Rs.cast_bool_u32 bits_more)
   crate.p32e2.P32E2.with_sign (← crate.p32e2.P32E2.from_bits u_a) sign
 '''
+
+FROMQPX2='''
+def crate.quire32.convert.PxE2.From_refQ32E2.from (N : UInt32) (q_a : Rs.Q32E2) : Rs.M Int32 := do
+  let mut bits_more := false
+  let mut frac64_a : UInt64 := 0
+  if (← crate.quire32.Q32E2.is_zero q_a) then return crate.pxe2.PxE2.ZERO N
+  if (← crate.quire32.Q32E2.is_nar q_a) then return crate.pxe2.PxE2.NAR N
+  let mut u_z ← crate.quire32.Q32E2.to_bits q_a
+  let sign := (u_z[0]! &&& 0x8000000000000000) != 0
+  if sign then u_z := ovr.q32_negate u_z
+  let mut no_lz : Int64 := 0
+  let mut i := 0
+  let mut fin := false
+  for step in [0:8] do
+    if !fin && step == i then
+      let u := u_z[i]!
+      if u == 0 then
+        no_lz ← Rs.add_isize no_lz 64
+        i := i + 1
+      else
+        let mut tmp := u
+        let mut no_lztmp : Int64 := 0
+        for _ in [0:64] do
+          if (← Rs.shr_u64 tmp 63) == 0 then
+            no_lztmp ← Rs.add_isize no_lztmp 1
+            tmp ← Rs.shl_u64 tmp 1
+        no_lz ← Rs.add_isize no_lz no_lztmp
+        frac64_a := tmp
+        let mut nexti := i + 1
+        if i != 7 && no_lztmp != 0 then
+          let w := u_z[i+1]!
+          frac64_a ← Rs.add_u64 frac64_a (← Rs.shr_u64 w (Rs.toInt_isize (← Rs.sub_isize 64 no_lztmp)))
+          if (w &&& (← Rs.sub_u64 (← Rs.shl_u64 1 (Rs.toInt_isize (← Rs.sub_isize 64 no_lztmp))) 1)) != 0 then bits_more := true
+          nexti := i + 2
+        for jj in [nexti:8] do
+          if u_z[jj]! > 0 then bits_more := true
+        fin := true
+  let k_a : Int8 := Rs.cast_isize_i8 (← Rs.shr_isize (← Rs.sub_isize 271 no_lz) 2)
+  let mut exp_a : Int32 ← Rs.sub_i32 (← Rs.sub_i32 271 (Rs.cast_isize_i32 no_lz)) (Rs.cast_i8_i32 (← Rs.shl_i8 k_a 2))
+  let (regime0, reg_sa, reg_a) ← crate.pxe2.PxE2.calculate_regime N k_a
+  let mut regime := regime0
+  let mut u_a : UInt32 := 0
+  if decide (reg_a > (← Rs.sub_u32 N 2)) then
+    if reg_sa then
+      u_a := 0x7FFFFFFF &&& (← crate.pxe2.PxE2.mask N)
+    else
+      u_a ← Rs.shl_u32 1 (Rs.toInt_u32 (← Rs.sub_u32 32 N))
+  else
+    frac64_a := frac64_a &&& 0x7FFFFFFFFFFFFFFF
+    let shift ← Rs.add_u32 reg_a 35
+    let mut frac_a : UInt32 := Rs.cast_u64_u32 (← crate.u64_zero_shr frac64_a shift)
+    let mut bit_n_plus_one := false
+    if decide (reg_a < N) then
+      if decide ((← Rs.add_u32 reg_a 4) <= N) then
+        bit_n_plus_one := ((← Rs.shr_u64 frac64_a (Rs.toInt_u32 (← Rs.sub_u32 (← Rs.add_u32 shift 31) N))) &&& 1) != 0
+        if (← Rs.shl_u64 frac64_a (Rs.toInt_u32 (← Rs.sub_u32 (← Rs.add_u32 33 N) shift))) != 0 then bits_more := true
+      else
+        if reg_a == (← Rs.sub_u32 N 2) then
+          bit_n_plus_one := (exp_a &&& 2) != 0
+          bits_more := bits_more || ((exp_a &&& 1) != 0)
+          exp_a := 0
+        else if reg_a == (← Rs.sub_u32 N 3) then
+          bit_n_plus_one := (exp_a &&& 1) != 0
+          exp_a := exp_a &&& 2
+        if decide (frac64_a > 0) then
+          frac_a := 0
+          bits_more := true
+    else
+      if reg_sa then
+        regime := regime &&& (← crate.pxe2.PxE2.mask N)
+      else
+        regime ← Rs.shl_u32 regime (Rs.toInt_u32 (← Rs.sub_u32 32 N))
+      exp_a := 0
+      frac_a := 0
+    if decide (reg_a <= 28) then
+      exp_a ← Rs.shl_i32 exp_a (Rs.toInt_u32 (← Rs.sub_u32 28 reg_a))
+    else
+      exp_a ← Rs.shr_i32 exp_a (Rs.toInt_u32 (← Rs.sub_u32 reg_a 28))
+    u_a := (← crate.pxe2.PxE2.pack_to_ui N regime (Rs.cast_i32_u32 exp_a) frac_a) &&& (← crate.pxe2.PxE2.mask N)
+    if bit_n_plus_one then
+      u_a ← Rs.add_u32 u_a (← Rs.shl_u32 (((← Rs.shr_u32 u_a (Rs.toInt_u32 (← Rs.sub_u32 32 N))) &&& 1) ||| Rs.cast_bool_u32 bits_more) (Rs.toInt_u32 (← Rs.sub_u32 32 N)))
+  crate.pxe2.PxE2.from_bits N (← crate.u32_with_sign u_a sign)
+'''
+DEPSPX=DEPS+[H+'pxe2::{impl#1}::calculate_regime',H+'pxe2::{impl#1}::pack_to_ui',H+'pxe2::{impl#1}::mask',H+'pxe2::{impl#0}::from_bits',H+'pxe2::{impl#0}::ZERO',H+'pxe2::{impl#0}::NAR',H+'u32_with_sign',H+'quire32::ops::fdp']
 OVERRIDES={
  H+'quire32::ops::fdp':(COMMON+FDP,DEPS),
  H+'quire32::ops::fdp_one':(FDP1,DEPS+[H+'quire32::ops::fdp']),
  H+'quire32::convert::{impl#4}::to_posit':(TOPOSIT,DEPS+[H+'quire32::ops::fdp']),
+ H+'quire32::convert::{impl#6}::from':(FROMQPX2,DEPSPX),
 }
 
 PINS={
  H+'quire32::ops::fdp':('src/quire32/ops.rs','pub(super) fn fdp('),
  H+'quire32::ops::fdp_one':('src/quire32/ops.rs','pub(super) fn fdp_one('),
  H+'quire32::convert::{impl#4}::to_posit':('src/quire32/convert.rs','pub fn to_posit('),
+ H+'quire32::convert::{impl#6}::from':('src/quire32/convert.rs','impl<const N: u32> From<&Q32E2> for PxE2<{ N }> {','fn from(q_a: &Q32E2) -> Self {'),
 }
 PINNED_SHA={
  H+'quire32::ops::fdp':'09775c15169a701cec1894c85e467b95b44cedbce14c930178ead419dde9ec90',
  H+'quire32::ops::fdp_one':'c641a6c71c414fb2d3a9d2fe89ba564c3f2bb6c4e172e5d6c7796a3ff7883005',
  H+'quire32::convert::{impl#4}::to_posit':'b8d14760bbfe590154ed16c604bd841fe1c26679f14d7a68f576111d232c1ab4',
+ H+'quire32::convert::{impl#6}::from':'0e5c3ba073eafe7970362b92bdc13b0182e53599508222dc5cb5e856e00e8924',
 }
-def item_source(repo,file,start):
-    """source text of the Rust item that begins with `start`, up to its matching closing brace"""
+def item_source(repo,file,start,then=None):
+    """source text of the Rust item that begins with `start` (if `then` is given: the first occurrence of `then` after `start`),
+    up to its matching closing brace"""
     try: txt=open(os.path.join(repo,file)).read()
     except OSError: return None
     i=txt.find(start)
     if i<0: return None
+    if then is not None:
+        i=txt.find(then,i)
+        if i<0: return None
     j=txt.find('{',i); d=0
     for k in range(j,len(txt)):
         if txt[k]=='{': d+=1
@@ -215,8 +306,9 @@ def item_source(repo,file,start):
     return None
 def override_status(repo):
     out={}
-    for p,(f,start) in PINS.items():
-        src=item_source(repo,f,start)
+    for p,pin in PINS.items():
+        f,start=pin[0],pin[1]
+        src=item_source(repo,*pin)
         sha=hashlib.sha256(src.encode()).hexdigest() if src is not None else None
         out[p]={'file':f,'item':start,'sha256':sha,'pinned':PINNED_SHA.get(p),'stale':sha!=PINNED_SHA.get(p)}
     return out
